@@ -324,7 +324,10 @@ def walkLoop (e : Env) (t : Nat) (fwd : Bool) : Nat → St → Walk → St × Wa
   | 0, σ, w => (σ, w, false)
   | f + 1, σ, w =>
     let (σ1, w1, cont) := scheduleSlot e σ t w
-    if !cont then (σ1, w1, true)
+    if !cont then
+      -- the slot in which the task finished may also be the first one it booked
+      let fb := if !fwd && w1.firstBooked.isNone && decide (w1.done > w.done) then some w1.cur else w1.firstBooked
+      (σ1, { w1 with firstBooked := fb }, true)
     else
       let fb := if !fwd && w1.firstBooked.isNone && decide (w1.done > w.done) then some w1.cur else w1.firstBooked
       let cur' := w1.cur + (if fwd then 1 else -1)
@@ -346,9 +349,12 @@ def fwdToWork (e : Env) : Nat → Int → Int
   | 0, cur => cur
   | f + 1, cur => if cur < e.upper && !e.projWork cur then fwdToWork e f (cur + 1) else cur
 
-/-- leaf tasks whose own `depends` attribute names `t` (`_getSuccessors`) -/
+/-- `_getSuccessors`: leaf tasks one of whose dependencies (own or inherited from an enclosing
+    container) names `t` or one of `t`'s enclosing containers -/
 def successors (e : Env) (t : Nat) : List Nat :=
-  (List.range e.tasks.size).filter (fun s => (e.taskD s).leaf && (e.taskD s).deps.any (fun dp => dp.target == t))
+  let targets := e.taskChain t
+  (List.range e.tasks.size).filter (fun s =>
+    (e.taskD s).leaf && s != t && (e.taskD s).allDeps.any (fun dp => targets.contains dp.target))
 
 /-- cursor initialisation of `schedule()`: returns (cur, offset) -/
 def initCursor (e : Env) (σ : St) (t : Nat) : Int × Rat :=
@@ -388,10 +394,9 @@ def initCursor (e : Env) (σ : St) (t : Nat) : Int × Rat :=
           match (σ.tst s).start with
           | none => acc
           | some ss =>
-            -- the gap of the first dict-style, finish-to-start entry naming `t`
-            let g := match (e.taskD s).deps.find? (fun dp => dp.hasOpts && dp.target == t && !dp.onstart) with
-              | some dp => dp.gap
-              | none => 0
+            -- the largest gap among the finish-to-start entries naming `t` or an enclosing container
+            let g := (e.taskD s).allDeps.foldl (fun m dp =>
+              if dp.hasOpts && (e.taskChain t).contains dp.target && !dp.onstart then max m dp.gap else m) 0
             min acc (ss - g)) l1
     let c0 := e.idx endDate - 1
     let fuel := (e.size.toNat + 2)
@@ -414,6 +419,9 @@ def scheduleTask (e : Env) (σ : St) (t : Nat) : St × Bool :=
         (c, σ.setT t { ts with start := some (e.time c) })
       else (c0, σ)
     let w0 : Walk := { cur := c1, offset := off }
+    -- the cursor must lie inside the horizon before the first slot is tried
+    if c1 < 0 || c1 > e.upper then (σ0.setT t { σ0.tst t with runaway := true }, false)
+    else
     let (σ1, w1, ok) := walkLoop e t ts.forward (e.size.toNat + 3) σ0 w0
     if !ok then (σ1.setT t { σ1.tst t with runaway := true }, false)
     else
@@ -491,16 +499,14 @@ def inheritedEnd (e : Env) (σ : St) (t : Nat) : Option Int :=
   match chain with
   | [] => none
   | root :: rest =>
-    match (σ.tst root).stop with
-    | none => none
-    | some re =>
-      -- effective_end = task_end if task_end else container_end, going down; stop before t itself
-      some ((rest.dropLast).foldl (fun acc x => match (σ.tst x).stop with | some v => v | none => acc) re)
+    -- effective_end = task_end if task_end else container_end, going down from the root (dated or
+    -- not); stop before t itself
+    (rest.dropLast).foldl (fun acc x => match (σ.tst x).stop with | some v => some v | none => acc) (σ.tst root).stop
 
 def propagateContainerEnds (e : Env) (σ : St) : St :=
   let leaves := (List.range e.tasks.size).filter (fun t => (e.taskD t).leaf)
-  let hasFsSucc := fun t => leaves.any (fun s => (e.taskD s).deps.any (fun dp => dp.target == t && !dp.onstart))
-  let hasOnstart := fun t => (e.taskD t).deps.any (fun dp => dp.onstart)
+  let hasFsSucc := fun t => leaves.any (fun s => (e.taskD s).allDeps.any (fun dp => (e.taskChain t).contains dp.target && !dp.onstart))
+  let hasOnstart := fun t => (e.taskD t).allDeps.any (fun dp => dp.onstart)
   (List.range e.tasks.size).foldl (fun (acc : St) t =>
     let d := e.taskD t
     if !d.leaf || d.parent.isNone then acc
@@ -591,7 +597,7 @@ def pickLoop (e : Env) : Nat → List Nat → List Nat → St → St × List Nat
 
 def scheduleScenario (e : Env) (σ : St) : St :=
   let σ1 := milestonePrepass e σ
-  let σ2 := propagateAlap e σ1
+  let σ2 := updateContainers e (propagateAlap e σ1)
   let todo := ((List.range e.tasks.size).filter (fun t => (e.taskD t).leaf && !(σ2.tst t).scheduled)).mergeSort (prioLe e)
   let (σ3, failed) := pickLoop e (todo.length + 1) todo [] σ2
   if failed.isEmpty then σ3 else { σ3 with warnings := σ3.warnings ++ ["unscheduled_tasks"] }
